@@ -25,8 +25,20 @@ use crate::{
 
 type Tree = BTreeMap<String, Option<Vec<u8>>>;
 
+/// the lexical normalisation the filestore applies to a name (C12): '.', '', leading '/' dropped,
+/// '..' pops (never above the root)
 fn norm(name: &str) -> String {
-    name.trim_start_matches('/').trim_end_matches('/').to_string()
+    let mut out: Vec<&str> = vec![];
+    for c in name.split('/') {
+        match c {
+            "" | "." => {}
+            ".." => {
+                out.pop();
+            }
+            x => out.push(x),
+        }
+    }
+    out.join("/")
 }
 fn parent_ok(t: &Tree, name: &str) -> bool {
     match name.rsplit_once('/') {
@@ -282,6 +294,18 @@ fn draw_req(rng: &mut Rng, strict: bool) -> Req {
     let file = |rng: &mut Rng| rng.pick(&["a.txt", "b.txt", "c.txt", "d1/x.txt", "d.bin", "new.txt"]).to_string();
     let dir = |rng: &mut Rng| rng.pick(&["d1", "d2", "d3", "d1/sub"]).to_string();
     let any = |rng: &mut Rng| rng.pick(&["a.txt", "b.txt", "d1", "d2", "d9/y.txt", "d1/x.txt", "d.bin", "new.txt", "d3"]).to_string();
+    // one name in six is spelt differently (the same file under another spelling)
+    let alias = |rng: &mut Rng, n: String| -> String {
+        match rng.below(18) {
+            0 => format!("/{}", n),
+            1 => format!("./{}", n),
+            2 => format!("d2/../{}", n),
+            _ => n,
+        }
+    };
+    let file = |rng: &mut Rng| { let n = file(rng); alias(rng, n) };
+    let dir = |rng: &mut Rng| { let n = dir(rng); alias(rng, n) };
+    let any = |rng: &mut Rng| { let n = any(rng); alias(rng, n) };
     match action {
         5 | 6 | 8 => req(action, &if strict { dir(rng) } else { any(rng) }, ""),
         2 | 3 | 4 => req(action, &if strict { file(rng) } else { any(rng) }, &if strict { file(rng) } else { any(rng) }),
@@ -442,4 +466,8 @@ pub fn check() -> Check {
         real: REAL_SIM.to_vec(),
         stub: STUB_SIM.to_vec(),
     }
+}
+
+pub fn selftest(seed: u64, i: usize) -> Scenario {
+    scenario(seed, i, (i / 10 % 5) as u8)
 }
